@@ -9,7 +9,7 @@ LAM = "\u03bb"
 
 ADJ = "types::SourceMap::adjust_mappings"
 CR = "types::SourceMap::adjust_mappings::create_ranges"
-NEXT = "some(Iterator::next(var:Iter<Range>))"
+NEXT = "try(Iterator::next(var:Iter<Range>))"
 
 
 def roles_of(b):
@@ -59,7 +59,7 @@ def keys(ctx, rule):
     lit = [c.expr_of_rvalue(s["rv"]) for bi, si, s, it in c.locations() if not it and s["k"] == "assign" and s["rv"]["k"] == "agg" and s["rv"].get("adt", "").endswith("adjust_mappings::Range")]
     if ctx.check(len(lit) == 1, rule, c.path, "literal", "one Range per token"):
         a = lit[0]
-        T = "some(Iterator::next(var:Peekable<IntoIter<RawToken>>))"
+        T = "try(Iterator::next(var:Peekable<IntoIter<RawToken>>))"
         START = "<indirect>(%s)" % T
         ctx.check(q.shape(a.field("start")) == START, rule, c.path, "start", "a stretch starts at the token's key", detail=q.shape(a.field("start")))
         want_end = "cmp::min(Option::map_or(Peekable::peek(var:Peekable<IntoIter<RawToken>>),tuple(4294967295,4294967295),arg2),tuple(%s.0,4294967295))" % START
